@@ -152,6 +152,24 @@ Theorem detect_marker_unguarded_refuted :
 Proof. exact detect_marker_unguarded_oob. Qed.
 Print Assumptions detect_marker_unguarded_refuted.
 
+(* ---- Flate predictor parameters (filter/flateDecode.go: parameters, validatePredictor, predictorRowParams) ---- *)
+
+(* For ALL /DecodeParms values (absent, negative, zero, huge): parameters accepted by the predictor stage have
+   Colors, row size, row length and bytes per pixel >= 1, so every division of the stage (len(row)/colors,
+   b.Len()%rowSize) is by a non-zero value and no row buffer is empty. *)
+Theorem flate_params_accepted_nonzero : forall predictor colors bpc columns c rs rl bpp,
+  post_process_params predictor colors bpc columns = PPRows c rs rl bpp ->
+  (1 <= c /\ 1 <= rs /\ 1 <= rl /\ 1 <= bpp)%Z.
+Proof. exact post_process_params_pos. Qed.
+Print Assumptions flate_params_accepted_nonzero.
+
+Example C08_flate_params_example :
+  post_process_params (Some 2%Z) (Some 0%Z) None None = PPErr /\
+  post_process_params (Some 2%Z) (Some 1%Z) None None = PPRows 1 1 1 1 /\
+  post_process_params (Some 12%Z) (Some 3%Z) (Some 8%Z) (Some 5%Z) = PPRows 3 15 16 3 /\
+  post_process_params (Some 1%Z) (Some 0%Z) None None = PPass.
+Proof. exact post_process_params_examples. Qed.
+
 (* ---- the object parser (ParseObjectContext / parseObjectContext / parseArray / parseDict) ---- *)
 
 (* For ALL byte strings, all limits and start levels, and whatever the token-level readers do: no call
